@@ -86,11 +86,11 @@ func c16Config(which string, st Style, widthA int) *SysSpec {
 	}
 	switch which {
 	case "A":
-		// rS is referenced by nobody; it logs through a tag from inside its Start, i.e. while Refresh is under way
-		sp.Apps = []AppSpec{{Name: "rA0", Type: "Rec"}, {Name: "rA1", Type: "Rec"}, {Name: "fA", Type: "File", FileDir: "/logs", FileName: "a.log", Width: widthA}, {Name: "cA", Type: "Console", Width: widthA}, {Name: "rS", Type: "Rec", StartLog: true}}
+		// the file appender carries the same name as the logger that uses it (separate name spaces); rS is referenced by nobody; it logs through a tag from inside its Start, i.e. while Refresh is under way
+		sp.Apps = []AppSpec{{Name: "rA0", Type: "Rec"}, {Name: "rA1", Type: "Rec"}, {Name: "svc", Type: "File", FileDir: "/logs", FileName: "a.log", Width: widthA}, {Name: "cA", Type: "Console", Width: widthA}, {Name: "rS", Type: "Rec", StartLog: true}}
 		sp.Logs = []LogSpec{
 			{Name: "root", Type: "Logger", Refs: []RefSpec{{Ref: "rA0"}, {Ref: "cA", Level: "FATAL"}}},
-			{Name: "svc", Type: "AsyncLogger", Tags: []string{"svc_*", "_app_*"}, BufferSize: 100, Policy: "Block", Refs: []RefSpec{{Ref: "rA1"}, {Ref: "fA", Level: "WARN"}}},
+			{Name: "svc", Type: "AsyncLogger", Tags: []string{"svc_*", "_app_*"}, BufferSize: 100, Policy: "Block", Refs: []RefSpec{{Ref: "rA1"}, {Ref: "svc", Level: "WARN"}}},
 		}
 	case "B":
 		sp.Apps = []AppSpec{{Name: "rB0", Type: "Rec"}, {Name: "rB1", Type: "Rec"}}
